@@ -139,4 +139,31 @@ def writeTrailers (t : List (List Nat × List (List Nat))) : Option (List (List 
   else some (t.flatMap (fun kv =>
     if kv.2.isEmpty || !validTrailerHeader kv.1 then [] else kv.2.map (fun v => (lowerASCII kv.1, v))))
 
+/-! ### responseWriter.writeHeader (response_writer.go) -/
+
+/-- `strconv.Itoa` -/
+def itoa (i : Int) : List Nat := if i < 0 then 45 :: fmtNat (-i).toNat else fmtNat i.toNat
+
+def isGoSpace (b : Nat) : Bool := b == 32 || (9 ≤ b && b ≤ 13)
+/-- `strings.TrimSpace` on an ASCII string -/
+def trimSpace (s : List Nat) : List Nat := ((s.dropWhile isGoSpace).reverse.dropWhile isGoSpace).reverse
+
+def trailerPrefix : List Nat := [84, 114, 97, 105, 108, 101, 114, 58]
+example : trailerPrefix = B "Trailer:" := by decide
+
+/-- the keys `writeHeader` declares as trailers from the values of the `Trailer` header
+    (`declareTrailer` keeps those that pass ValidTrailerHeader) -/
+def declaredTrailers (hs : List (List Nat × List (List Nat))) : List (List Nat) :=
+  ((((hs.filter (fun kv => kv.1 == kTrailer)).flatMap (·.2)).flatMap (splitOn 44)).map (fun t => canonKey (trimSpace t))).filter validTrailerHeader
+
+/-- the regular fields of a response header section: every header that is neither a declared trailer
+    nor `Trailer:`-prefixed, name lower-cased, in map iteration order -/
+def responseRegular (hs : List (List Nat × List (List Nat))) : List (List Nat × List Nat) :=
+  hs.flatMap (fun kv =>
+    if (declaredTrailers hs).contains kv.1 || trailerPrefix.isPrefixOf kv.1 then [] else kv.2.map (fun v => (lowerASCII kv.1, v)))
+
+/-- `responseWriter.writeHeader(status)` on a writer that has not declared trailers before -/
+def responseFields (status : Int) (hs : List (List Nat × List (List Nat))) : List (List Nat × List Nat) :=
+  (nStatus, itoa status) :: responseRegular hs
+
 end Uquic.Model.H3.Writer
